@@ -50,6 +50,7 @@ def handle : Json → Except String Json := fun j => do
       ("area_gt", jRat (areaBev gt)),
       ("inter", jRat I),
       ("inter_swapped", jRat I'),
+      ("inter_sym", jRat (interSym fe fg)),
       ("hinter", jRat (boxHeightInter est gt)),
       ("iou2d", jExcept (iouCode I (areaBev est) (areaBev gt))),
       ("iou3d", jExcept (iou3dCode I (areaBev est) (areaBev gt) est.h gt.h (boxHeightInter est gt))),
